@@ -22,7 +22,7 @@ from .c04 import expected_type
 ID = "C15"
 
 EXTS = [(".abstract", b"ABSTRACT"), (".keywords", b"KEYWORDS"), (".ask", b"ASK"), (".3d", b"3D")]
-LINES = [b"x", b"two words", b"+ADMIN:", b"+INFO: 0fake\t/fake\thost\t70", b" lead", b"trail  ", b"", b"\xc3\xa9", b"<&>"]
+LINES = [b"x", b"two words", b"+ADMIN:", b"+INFO: 0fake\t/fake\thost\t70", b" lead", b"trail  ", b"", b"\xc3\xa9", b"<&>", b"caf\xe9 latin-1"]
 
 ITEMS = {
     # name -> (parent selector, selector, sidecar base path relative to root, kind)
@@ -53,7 +53,11 @@ def sidecar_bytes(combo, crlf=False):
     return nl.join(LINES[i] for i in combo) + nl
 
 
-def build(item, sidecars, handlers):
+DECOR_NAMES = (b"Path=./a.txt\nName=Decorated A\nNumb=3\n\nPath=./b.html\nName=Decorated B\n\nPath=./sub\nName=Decorated Sub\nNumb=-1\n\n"
+               b"Path=./c.txt.gz\nAbstract=abstract from the link file\n")
+
+
+def build(item, sidecars, handlers, decorated=False):
     """sidecars: {ext: bytes}"""
     spec = {"t": {"a.txt": FILE_BYTES["t/a.txt"], "b.html": FILE_BYTES["t/b.html"], "c.txt.gz": FILE_BYTES["t/c.txt.gz"], "sub": {"inner.txt": b"i\n"}, "m.mbox": worlds.MBOX}}
     zmembers = [("m.txt", b"member bytes\n" * 100), ("zd/e.txt", b"e\n")]
@@ -63,6 +67,10 @@ def build(item, sidecars, handlers):
         for ext, data in sidecars.items():
             zmembers.append((zbase + ext, data))
     spec["t"]["z.zip"] = worlds.make_zip(zmembers)
+    if decorated:
+        # the item is also decorated by UMN metadata: its sidecar blocks must survive the merge
+        spec["t"][".names"] = DECOR_NAMES
+        spec["t"][".cap"] = {"a.txt": b"Numb=2\n"}
     w = rig.World(spec, handlers=handlers, cachetime=0, tag="c15")
     if kind in ("file", "dir"):
         for ext, data in sidecars.items():
@@ -70,7 +78,7 @@ def build(item, sidecars, handlers):
     return w
 
 
-def expected_blocks(item, sidecars, handlers):
+def expected_blocks(item, sidecars, handlers, decorated=False):
     """-> {blockname: [lines]} for the sidecars that exist and apply"""
     parent, sel, base, kind = ITEMS[item]
     if kind == "virtual":
@@ -83,10 +91,12 @@ def expected_blocks(item, sidecars, handlers):
             if lines and lines[-1] == b"":
                 lines.pop()
             out[name] = lines
+    if decorated and item == "gz":
+        out[b"ABSTRACT"] = [b"abstract from the link file"]
     return out
 
 
-def judge_item(w, item, sidecars, handlers):
+def judge_item(w, item, sidecars, handlers, decorated=False):
     parent, sel, base, kind = ITEMS[item]
     bad = []
     # the item's plain Gopher menu line in its parent
@@ -99,9 +109,9 @@ def judge_item(w, item, sidecars, handlers):
             break
     if menu_line is None:
         return [("setup", "item %s not found in the plain listing of %s: %r" % (sel, parent, r.out[:200]))]
-    want_blocks = expected_blocks(item, sidecars, handlers)
+    want_blocks = expected_blocks(item, sidecars, handlers, decorated)
     views = {}
-    for form in ("gopherp_info", "gopherp_dir"):
+    for form in (("gopherp_dir",) if decorated else ("gopherp_info", "gopherp_dir")):
         target = sel if form == "gopherp_info" else parent
         r = w.serve(*rig.request(form, target))
         if r.internal_error:
@@ -182,10 +192,12 @@ def judge_item(w, item, sidecars, handlers):
 def _shard(shard, seed, tier):
     part = core.Partial()
     for handlers, item, combo_spec in shard:
+        decorated = handlers.endswith("+decor")
+        handlers = handlers.split("+")[0]
         sidecars = {ext: sidecar_bytes(c, crlf) for ext, c, crlf in combo_spec}
-        w = build(item, sidecars, handlers)
+        w = build(item, sidecars, handlers, decorated)
         try:
-            bad = judge_item(w, item, sidecars, handlers)
+            bad = judge_item(w, item, sidecars, handlers, decorated)
         finally:
             w.destroy()
         part.evaluations += 3
@@ -195,11 +207,11 @@ def _shard(shard, seed, tier):
         part.sample({"item": item, "handlers": handlers, "sidecars": {e: sidecar_bytes(c, cr) for e, c, cr in combo_spec}}, limit=2)
         seen = set()
         for form, cls, det in [b if len(b) == 3 else ("-",) + b for b in bad]:
-            k = "%s|%s|%s|%s|%s" % (handlers, item, ";".join("%s=%s%s" % (e, ",".join(map(str, c)), "r" if cr else "") for e, c, cr in combo_spec), form, cls)
+            k = "%s%s|%s|%s|%s|%s" % (handlers, "+decor" if decorated else "", item, ";".join("%s=%s%s" % (e, ",".join(map(str, c)), "r" if cr else "") for e, c, cr in combo_spec), form, cls)
             if k in seen:
                 continue
             seen.add(k)
-            part.violation(k, det, {"handlers": handlers, "item": item, "spec": [[e, list(c), cr] for e, c, cr in combo_spec]})
+            part.violation(k, det, {"handlers": handlers + ("+decor" if decorated else ""), "item": item, "spec": [[e, list(c), cr] for e, c, cr in combo_spec]})
     return part
 
 
@@ -238,6 +250,13 @@ def run(ck):
                     for c1 in one:
                         for c2 in one:
                             items.append((handlers, item, ((e1, c1, False), (e2, c2, False))))
+    # items that are also decorated by .names / .cap blocks: every subset of sidecars
+    for item in ("text", "html", "gz", "dir"):
+        for k in range(0, 5):
+            for exts in itertools.combinations([e for e, _ in EXTS], k):
+                if item == "gz" and ".abstract" in exts:
+                    continue  # the link file's Abstract= and the sidecar compete for the same block
+                items.append(("full+decor", item, tuple((e, (0, 1), False) for e in exts)))
     items = list(dict.fromkeys(items))
     if ck.seed:
         import random
